@@ -5,6 +5,7 @@ from __future__ import annotations
 
 import itertools
 import math
+import random
 
 import numpy as np
 
@@ -52,8 +53,13 @@ def gen_pm(rng, hostile=True):
 
     TM = dict(zip(MODES, ThrustMode))
 
+    ord_rng = random.Random(rng.getrandbits(32))
+
     def tmv(d):
-        return ThrustModeValues({TM[m]: float(d[m]) for m in MODES})
+        modes = list(MODES)
+        if hostile and ord_rng.random() < 0.5:      # mappings filled in another key order
+            ord_rng.shuffle(modes)
+        return ThrustModeValues({TM[m]: float(d[m]) for m in modes})
     flows = sorted(10 ** rng.uniform(-1.3, 0.5) for _ in range(4))
     for i in range(1, 4):
         if flows[i] < flows[i - 1] * 1.05:
